@@ -133,7 +133,13 @@ pub fn drive_copy<V: CopyVec>(ctx: &mut Ctx, v: &mut V) {
         let len = m.len();
         let room = if V::FIXED { v.capa() - len } else { usize::MAX };
         let try_forced = !ctx.panicking_ok(&op);
-        let try_ = try_forced || op.a[2] & 1 == 1;
+        // extend_from_within doubles the vector: keep it small enough that the simulated heap never has to refuse a
+        // giant chunk to a panicking method (that would be an abort caused by the harness, not by the library)
+        if len > 20_000 {
+            ctx.stats.probe("copy.length_cap");
+            break;
+        }
+        let try_ = try_forced || op.a[2] & 1 == 1 || len > 2_000;
         let n = op.a[1] as usize % 12;
         let xs: Vec<u32> = (0..n).map(|_| ctx.fresh_val()).collect();
         let mut expect = m.clone();
